@@ -416,7 +416,9 @@ fn gen_elem(c: &mut Chooser, kind: Kind, s: Shape, m: Modes, ord: usize) -> REle
         Kind::Aref => {
             e.sname = strv(c, m, if ord == 0 { "arrd" } else { "arrd2" }, "sname");
             e.strans = gen_strans(c, s, m);
-            e.colrow = (i16v(c, m, 3 + o16, "cols"), i16v(c, m, 5 + o16, "rows"));
+            // a single placement, a single column, a single row: still an array
+            let base: (i16, i16) = if m.ints && may(c, m) { c.cost_of(&[(3 + o16, 5 + o16), (1, 1), (1, 5 + o16), (3 + o16, 1)], "colrow-shape") } else { (3 + o16, 5 + o16) };
+            e.colrow = (i16v(c, m, base.0, "cols"), i16v(c, m, base.1, "rows"));
             e.xy = coords_fixed(c, m, 3, oi, "xy");
         }
         Kind::Text => {
